@@ -103,8 +103,9 @@ def _equal(a, b):
 class World(object):
     """one user model family and the evaluation entry points"""
 
-    def __init__(self, rng, sbml):
+    def __init__(self, rng, sbml, reduced_user_model=False):
         self.sbml = sbml
+        self.reduced_user_model = reduced_user_model
         self.entries = []        # (object name, call name, fn, args list)
         if sbml:
             from chi.library import ModelLibrary
@@ -117,6 +118,15 @@ class World(object):
         else:
             n_out = int(rng.integers(1, 3))
             um = toys.ToyMulti(n_out)
+        self.fixed_name = None
+        if reduced_user_model:
+            # the user's own model is already a reduced model: every object
+            # built from it copies a model that carries a fixed-value buffer
+            um = chi.ReducedMechanisticModel(um)
+            names = um.parameters()
+            self.fixed_name = names[int(rng.integers(len(names)))]
+            self.fixed_value = float(rng.uniform(0.5, 1.5))
+            um.fix_parameters({self.fixed_name: self.fixed_value})
         self.user_model = um
         self.n_out = n_out
         ems = sorted(D.ERROR_MODELS)
@@ -127,6 +137,9 @@ class World(object):
             mech = rng.uniform(0.5, 1.5, n_mech)
         else:
             mech = toys.toy_multi_params(rng, n_out)
+            if reduced_user_model:
+                full = um.mechanistic_model().parameters()
+                mech = np.delete(mech, full.index(self.fixed_name))
         err = np.concatenate([rng.uniform(0.15, 0.4, D.ERROR_MODELS[e][0])
                               for e in self.em_names])
         self.x_ind = np.concatenate([mech, err])
@@ -154,6 +167,19 @@ class World(object):
         llf.fix_parameters({names[fix_i]: float(self.x_ind[fix_i])})
         ptsf = [_ro(np.delete(p, fix_i)) for p in pts]
         self._add('ll_fixed', llf, ptsf, s1=True, pointwise=True)
+        if reduced_user_model and n_mech >= 2:
+            # a sibling whose fixed set differs: releases the user's fixed
+            # parameter and fixes another one instead
+            lld = chi.LogLikelihood(um, self.user_ems,
+                                    [rng.uniform(0.5, 3, size=2)] * n_out,
+                                    [TIMES[1:3]] * n_out)
+            free_names = um.parameters()
+            other = free_names[int(rng.integers(len(free_names)))]
+            lld.fix_parameters({self.fixed_name: None,
+                                other: float(rng.uniform(0.5, 1.5))})
+            self._add('ll_other_fixed_set', lld,
+                      [_ro(p[:lld.n_parameters()]) for p in pts],
+                      s1=True, pointwise=True)
         # ---- hierarchical over the first likelihoods
         leaves = GP.random_composition(rng, n_ids, total_dim=n_ind,
                                        p_cov=0.0)
@@ -268,9 +294,18 @@ class World(object):
     def mutate_user_models(self, rng):
         """later changes to the user's models"""
         kind = ['outputs', 'regimen', 'route', 'rename_params',
-                'rename_error', 'sensitivities'][int(rng.integers(6))]
+                'rename_error', 'sensitivities', 'refix_user_model',
+                'refix_user_model'][int(rng.integers(8))]
         um = self.user_model
+        if self.reduced_user_model and kind in ('route', 'rename_params'):
+            kind = 'refix_user_model'
         try:
+            if kind == 'refix_user_model':
+                if not self.reduced_user_model:
+                    return None
+                um.fix_parameters({self.fixed_name: float(
+                    rng.uniform(2.0, 3.0))})
+                return kind
             if kind == 'outputs' and self.sbml:
                 um.set_outputs(['central.drug_amount',
                                 'central.drug_concentration'])
@@ -373,15 +408,17 @@ def run_history(ctx, rng, world, n_calls, feats, schedule=None):
 
 def history_case(ctx, rng, idx):
     sbml = idx % 3 == 0
-    feats = {'family': 'history', 'sbml': sbml}
+    reduced_um = idx % 4 == 1
+    feats = {'family': 'history', 'sbml': sbml,
+             'reduced_user_model': reduced_um}
     try:
-        world = World(rng, sbml)
+        world = World(rng, sbml, reduced_user_model=reduced_um)
     except Exception as e:      # noqa
         ctx.violation_exc('setup_raises', e, {}, feats)
         return
     n = int(rng.integers(20, 60 if sbml else 121))
     feats['population'] = [GP.leaf_code(l) for l in world.pop_leaves]
-    ctx.case(('history', sbml, n // 20, idx), True,
+    ctx.case(('history', sbml, reduced_um, n // 20, idx), True,
              sample=dict(feats, n_calls=n, entry_points=sorted(set(
                  '%s.%s' % (e[0], e[1]) for e in world.entries))))
     run_history(ctx, rng, world, n, feats)
